@@ -315,6 +315,32 @@ Proof.
   - apply numpy_engine_rows_eq, genfromtxt_rows_streq, H.
 Qed.
 
+Theorem blank_data_all d subs n a x b : strip x = [] ->
+  normal_items d subs (a ++ x :: b) = normal_items d subs (a ++ b) /\
+  genfromtxt_rows (a ++ x :: b) = genfromtxt_rows (a ++ b) /\
+  normal_engine fhex fstr d subs n (a ++ x :: b) = normal_engine fhex fstr d subs n (a ++ b) /\
+  numpy_engine fhex (a ++ x :: b) = numpy_engine fhex (a ++ b).
+Proof.
+  intros E. split; [apply blank_data_normal; exact E|]. split; [apply blank_data_numpy; exact E|].
+  apply skip_data_engines. left. exact E.
+Qed.
+
+Theorem comment_data_all d subs n a x b : startswith [ch_hash] (strip x) = true ->
+  normal_items d subs (a ++ x :: b) = normal_items d subs (a ++ b) /\
+  genfromtxt_rows (a ++ x :: b) = genfromtxt_rows (a ++ b) /\
+  normal_engine fhex fstr d subs n (a ++ x :: b) = normal_engine fhex fstr d subs n (a ++ b) /\
+  numpy_engine fhex (a ++ x :: b) = numpy_engine fhex (a ++ b).
+Proof.
+  intros E. split; [apply comment_data_normal; exact E|]. split; [apply comment_data_numpy; exact E|].
+  apply skip_data_engines. right. exact E.
+Qed.
+
+Theorem rewrap_tokens_all d subs n a b :
+  List.concat (map (toks d subs) a) = List.concat (map (toks d subs) b) ->
+  normal_items d subs a = normal_items d subs b /\
+  normal_engine fhex fstr d subs n a = normal_engine fhex fstr d subs n b.
+Proof. intros H. split; [apply normal_items_rewrap|apply normal_engine_rewrap]; exact H. Qed.
+
 End Engines.
 
 (* ======================================================================================= *)
@@ -426,6 +452,14 @@ Corollary sniff_skip_anywhere d subs a x b : is_skip x = true ->
   inspect_twice d (a ++ x :: b) subs = inspect_twice d (a ++ b) subs.
 Proof. intros H. apply inspect_twice_ins_skipped. apply (ins_lines_one (fun x => is_skip x = true)). exact H. Qed.
 
+Corollary sniff_blank d subs a x b : strip x = [] ->
+  inspect_twice d (a ++ x :: b) subs = inspect_twice d (a ++ b) subs.
+Proof. intros E. apply sniff_skip_anywhere. apply is_skip_cases. left. exact E. Qed.
+
+Corollary sniff_comment d subs a x b : startswith [ch_hash] (strip x) = true ->
+  inspect_twice d (a ++ x :: b) subs = inspect_twice d (a ++ b) subs.
+Proof. intros E. apply sniff_skip_anywhere. apply is_skip_cases. right. exact E. Qed.
+
 (* a body whose counted lines all have c tokens and the same hyphen flag h: the answer is
    determined *)
 Definition uniform (d : dlm) (subs : list rsub) (c : nat) (h : bool) (body : list (list N)) : Prop :=
@@ -468,3 +502,87 @@ Proof.
   - rewrite Nat.eqb_refl. reflexivity.
   - destruct k; [lia|]. reflexivity.
 Qed.
+
+(* ======================================================================================= *)
+(* a SPACE-delimited data line is read as its white-space separated fields                 *)
+(* ======================================================================================= *)
+Theorem toks_space_is_split subs raw :
+  startswith [ch_hash] (strip raw) = false -> apply_subs subs (strip raw) = strip raw ->
+  in_str 26 raw = false -> in_str 34 raw = false -> in_str 39 raw = false ->
+  toks DSpace subs raw = split_ws raw.
+Proof.
+  intros Hc Hs H26 H34 H39. unfold toks. rewrite Hc, Hs.
+  rewrite remove_char_absent by (apply in_str_strip_false; exact H26).
+  rewrite <- (split_ws_strip raw). destruct (strip raw) as [|ch r] eqn:E; [reflexivity|].
+  rewrite <- E. cbn [split_line]. apply sow_is_split; apply in_str_strip_false; assumption.
+Qed.
+
+(* hence any change of the white space between (and around) the fields is invisible *)
+Theorem toks_space_ws subs raw raw' :
+  startswith [ch_hash] (strip raw) = false -> apply_subs subs (strip raw) = strip raw ->
+  in_str 26 raw = false -> in_str 34 raw = false -> in_str 39 raw = false ->
+  startswith [ch_hash] (strip raw') = false -> apply_subs subs (strip raw') = strip raw' ->
+  in_str 26 raw' = false -> in_str 34 raw' = false -> in_str 39 raw' = false ->
+  split_ws raw = split_ws raw' -> toks DSpace subs raw = toks DSpace subs raw'.
+Proof. intros. rewrite !toks_space_is_split by assumption. assumption. Qed.
+
+(* COMMA: the fields of a comma-joined line are the joined tokens *)
+Lemma split_char_aux_run sep : forall t rest cur, in_str sep t = false ->
+  split_char_aux sep (t ++ rest) cur = split_char_aux sep rest (rev t ++ cur).
+Proof.
+  induction t as [|x t IH]; intros rest cur H; [reflexivity|].
+  unfold in_str in H. cbn [existsb] in H. apply orb_false_iff in H as [Hx Ht].
+  cbn [app split_char_aux rev]. rewrite N.eqb_sym, Hx. rewrite IH by exact Ht. rewrite <- app_assoc. reflexivity.
+Qed.
+
+Theorem split_char_join sep : forall ts, ts <> [] -> Forall (fun t => in_str sep t = false) ts ->
+  split_char sep (join [sep] ts) = ts.
+Proof.
+  unfold split_char. induction ts as [|t ts IH]; intros Hne H; [congruence|].
+  inversion H as [|? ? Ht Hts]; subst. destruct ts as [|t2 ts].
+  - cbn [join]. rewrite <- (app_nil_r t) at 1. rewrite split_char_aux_run by exact Ht.
+    cbn [split_char_aux]. rewrite app_nil_r, rev_involutive. reflexivity.
+  - change (join [sep] (t :: t2 :: ts)) with (t ++ [sep] ++ join [sep] (t2 :: ts)).
+    rewrite split_char_aux_run by exact Ht. cbn [app split_char_aux]. rewrite N.eqb_refl.
+    rewrite app_nil_r, rev_involutive. f_equal. apply IH; [discriminate|exact Hts].
+Qed.
+
+Corollary split_line_comma_join ts : ts <> [] -> Forall (fun t => in_str ch_comma t = false) ts ->
+  split_line DComma (join [ch_comma] ts) = ts.
+Proof. apply split_char_join. Qed.
+
+(* ======================================================================================= *)
+(* composition                                                                             *)
+(* ======================================================================================= *)
+Section Compose.
+Variables (T A : Type) (f : T -> A) (R : T -> T -> Prop).
+Hypothesis step_inv : forall x y, R x y -> f x = f y.
+
+(* a finite sequence of changes, each applied forwards or backwards *)
+Inductive chain : T -> T -> Prop :=
+| chain_nil x : chain x x
+| chain_fwd x y z : R x y -> chain y z -> chain x z
+| chain_bwd x y z : R y x -> chain y z -> chain x z.
+
+Theorem chain_inv x y : chain x y -> f x = f y.
+Proof.
+  induction 1 as [x|x y z Hxy _ IH|x y z Hyx _ IH]; [reflexivity| |].
+  - rewrite (step_inv x y Hxy). exact IH.
+  - rewrite <- (step_inv y x Hyx). exact IH.
+Qed.
+
+(* the same over an explicit list of intermediate texts *)
+Fixpoint path (x : T) (ys : list T) (z : T) : Prop :=
+  match ys with
+  | [] => x = z
+  | y :: ys' => (R x y \/ R y x) /\ path y ys' z
+  end.
+
+Theorem path_inv : forall ys x z, path x ys z -> f x = f z.
+Proof.
+  induction ys as [|y ys IH]; intros x z H; cbn [path] in H; [congruence|].
+  destruct H as ([Hxy|Hyx] & Hp).
+  - rewrite (step_inv x y Hxy). apply IH. exact Hp.
+  - rewrite <- (step_inv y x Hyx). apply IH. exact Hp.
+Qed.
+End Compose.
